@@ -15,12 +15,9 @@ NCPU = int(os.environ.get('VERIF_JOBS', '16'))
 
 
 def ensure_deps():
-    deps = os.path.join(core.VERIF, '.deps')
-    if os.path.isdir(os.path.join(deps, 'icontract')) and os.path.isdir(os.path.join(deps, 'deal')):
-        return
-    subprocess.run(['/venv/bin/pip', 'install', '--no-index', '--find-links', '/opt/veriftools/wheels',
-                    '--target', deps, '-q', 'deal', 'icontract'], check=True,
-                   stdout=subprocess.DEVNULL, stderr=subprocess.DEVNULL)
+    """Nothing to install: the monitors are plain recorder wrappers and need only what /venv already has
+    (sortedcontainers for the monotonicity monitor, jsonschema as the repository itself) and node for C18."""
+    return
 
 
 def run_shard(prop, tier, seed, spec, timeout, replay=None):
@@ -28,7 +25,7 @@ def run_shard(prop, tier, seed, spec, timeout, replay=None):
     os.close(fd)
     env = dict(os.environ)
     env['PYTHONHASHSEED'] = '0'
-    env['PYTHONPATH'] = os.pathsep.join([core.VERIF, os.path.join(core.VERIF, '.deps')])
+    env['PYTHONPATH'] = core.VERIF
     env['VERIF_REPO'] = core.REPO
     cmd = ['/venv/bin/python', '-X', 'faulthandler', '-m', 'vf.worker', prop, tier, str(seed), json.dumps(spec), out]
     if replay:
@@ -71,7 +68,6 @@ def main(argv=None):
     prop = a.prop.upper()
     t0 = time.time()
     ensure_deps()
-    sys.path.insert(0, os.path.join(core.VERIF, '.deps'))
     mod = importlib.import_module('vf.props.%s' % prop.lower())
     if a.replay:
         d = run_shard(prop, a.tier, a.seed, {'replay': True}, 3600, replay=os.path.abspath(a.replay))
